@@ -33,10 +33,12 @@ package grandpa
 // possible when equivocator weight > f), estimate/completable when precommit equivocator weight > f.
 
 import (
-	"bytes"
 	"fmt"
+	"os"
 	"sort"
+	"strconv"
 	"strings"
+	"sync/atomic"
 	"testing"
 
 	"github.com/ChainSafe/gossamer/internal/verifmc"
@@ -55,8 +57,11 @@ type c20Cfg struct {
 	symm    bool     // histories up to renaming of equal-weight active voters (new voters appear in id order)
 	depth   int      // history length bound
 	ghostOp bool     // PrecommitGHOST() is also an operation (its cache then becomes part of the explored state)
+	beyondF bool     // histories may make the equivocator weight of a phase exceed f (outside the fault assumption)
 	baseNum uint32
 	T, t, f uint64
+	voters  *VoterSet[string] // built once by the real NewVoterSet; never mutated by Round
+	chain   *c20Chain
 }
 
 func (c *c20Cfg) finish() *c20Cfg {
@@ -70,6 +75,15 @@ func (c *c20Cfg) finish() *c20Cfg {
 	}
 	c.f = (c.T - 1) / 3
 	c.t = c.T - c.f
+	var iw []IDWeight[string]
+	for i, id := range c.ids {
+		iw = append(iw, IDWeight[string]{ID: id, Weight: c.weights[i]})
+	}
+	c.voters = NewVoterSet(iw)
+	if c.voters == nil {
+		panic("c20: NewVoterSet returned nil for " + c.describe())
+	}
+	c.chain = c20NewChain(c)
 	return c
 }
 
@@ -154,17 +168,9 @@ type c20Op struct {
 func (o c20Op) Name() string { return o.name }
 
 func c20Fresh(c *c20Cfg) *c20State {
-	var iw []IDWeight[string]
-	for i, id := range c.ids {
-		iw = append(iw, IDWeight[string]{ID: id, Weight: c.weights[i]})
-	}
-	vs := NewVoterSet(iw)
-	if vs == nil {
-		panic("c20: NewVoterSet returned nil for " + c.describe())
-	}
-	s := &c20State{cfg: c, chain: c20NewChain(c), acted: make([]bool, len(c.ids))}
+	s := &c20State{cfg: c, chain: c.chain, acted: make([]bool, len(c.ids))}
 	s.r = NewRound[string, string, uint32, string](RoundParams[string, string, uint32]{
-		RoundNumber: 1, Voters: *vs, Base: HashNumber[string, uint32]{Hash: c.hash[0], Number: c.baseNum},
+		RoundNumber: 1, Voters: *c.voters, Base: HashNumber[string, uint32]{Hash: c.hash[0], Number: c.baseNum},
 	})
 	s.votes[0] = make([][]int, len(c.ids))
 	s.votes[1] = make([][]int, len(c.ids))
@@ -187,7 +193,8 @@ func c20AllOps(c *c20Cfg) []c20Op {
 	return ops
 }
 
-// c20Enabled: with symm, a voter that has not acted yet may act only if every lower active voter
+// c20Enabled: without beyondF, votes that push the equivocator weight of a phase above f are not
+// explored (outside the fault assumption; the beyondF configurations execute them).  With symm, a voter that has not acted yet may act only if every lower active voter
 // of the same weight has acted (every history is a renaming of exactly one such history).
 func c20Enabled(s *c20State, all []c20Op) []verifmc.Op {
 	c := s.cfg
@@ -203,6 +210,16 @@ func c20Enabled(s *c20State, all []c20Op) []verifmc.Op {
 			}
 			if blocked {
 				continue
+			}
+		}
+		if !c.beyondF && o.kind != 2 {
+			// a vote that would make a new equivocator is enabled only while the phase's equivocator weight stays <= f
+			vv := s.votes[o.kind][o.voter]
+			if len(vv) == 1 && vv[0] != o.block {
+				_, eqv := c.refSeenEqv(s.votes[o.kind])
+				if eqv+c.weights[o.voter] > c.f {
+					continue
+				}
 			}
 		}
 		out = append(out, o)
@@ -258,7 +275,7 @@ type c20Expect struct {
 	finalized   int    // -1 none, -2 skipped
 	estimate    int    // -1 none, -2 skipped
 	completable int    // 0 false, 1 true, -2 skipped
-	skip        []string
+	skipIdx     []int
 }
 
 func (c *c20Cfg) refW(votes [][]int, b int) uint64 {
@@ -321,8 +338,12 @@ func (c *c20Cfg) reference(votes [2][][]int) c20Expect {
 	for p := 0; p < 2; p++ {
 		e.seen[p], e.eqv[p] = c.refSeenEqv(votes[p])
 		e.ghost[p] = c.refGhost(votes[p])
-		if e.ghost[p] == -2 {
-			e.skip = append(e.skip, fmt.Sprintf("skip:%s-supermajority-blocks-not-a-chain", [2]string{"prevote", "precommit"}[p]))
+		if e.eqv[p] >= c.t {
+			// every block, seen or unseen, of the open-ended tree has a supermajority: "the highest" does not exist
+			e.ghost[p] = -2
+			e.skipIdx = append(e.skipIdx, c20SkPvEqvAll+p)
+		} else if e.ghost[p] == -2 {
+			e.skipIdx = append(e.skipIdx, c20SkPvChain+p)
 		}
 	}
 	g := e.ghost[0]
@@ -347,7 +368,7 @@ func (c *c20Cfg) reference(votes [2][][]int) c20Expect {
 	// estimate / completable
 	if e.eqv[1] > c.f {
 		e.estimate, e.completable = -2, -2
-		e.skip = append(e.skip, "skip:precommit-equivocator-weight-exceeds-f")
+		e.skipIdx = append(e.skipIdx, c20SkPcEqvF)
 		return e
 	}
 	if e.seen[1] < c.t {
@@ -356,7 +377,7 @@ func (c *c20Cfg) reference(votes [2][][]int) c20Expect {
 			e.completable = 0 // an unseen child of g could still get a supermajority
 		} else {
 			e.estimate, e.completable = -2, -2
-			e.skip = append(e.skip, "skip:weighted-window-2f<seen-precommits<t")
+			e.skipIdx = append(e.skipIdx, c20SkWindow)
 		}
 		return e
 	}
@@ -370,7 +391,7 @@ func (c *c20Cfg) reference(votes [2][][]int) c20Expect {
 	if e.estimate != g {
 		if e.estimate == -1 {
 			e.completable = -2 // cannot happen with equivocator weight <= f (base is always possible)
-			e.skip = append(e.skip, "skip:no-possible-block")
+			e.skipIdx = append(e.skipIdx, c20SkNoPossible)
 		} else {
 			e.completable = 1
 		}
@@ -449,12 +470,58 @@ func (s *c20State) votesString() string {
 	return sb.String()
 }
 
+// outcome classes are counted with atomics (a mutex per evaluation serialises 16 workers) and
+// written to the report at the end.
+var c20SkipNames = []string{
+	"skip:prevote-supermajority-blocks-not-a-chain", "skip:precommit-supermajority-blocks-not-a-chain",
+	"skip:prevote-equivocators-alone-are-a-supermajority", "skip:precommit-equivocators-alone-are-a-supermajority",
+	"skip:precommit-equivocator-weight-exceeds-f", "skip:weighted-window-2f<seen-precommits<t", "skip:no-possible-block",
+	"shortcut:prevote-ghost-is-not-a-vote-node", "shortcut:equivocation-bitfield-longer-than-node-bitfield",
+	"shortcut:node-bitfield-longer-than-equivocation-bitfield", "nontrivial:both-phases-at-threshold",
+}
+
+const (
+	c20SkPvChain = iota
+	c20SkPcChain
+	c20SkPvEqvAll
+	c20SkPcEqvAll
+	c20SkPcEqvF
+	c20SkWindow
+	c20SkNoPossible
+	c20ShGhostNotNode
+	c20ShEqvLonger
+	c20ShNodeLonger
+	c20NonTrivial
+)
+
+var c20SkipCount [16]atomic.Int64
+var c20ClassCount [1024]atomic.Int64
+
+func c20FlushOutcomes(r *verifmc.Report) {
+	for i, n := range c20SkipNames {
+		if v := c20SkipCount[i].Load(); v > 0 {
+			r.Outcomes[n] += v
+		}
+	}
+	r.Add("nontrivial_evaluations_both_phases_at_threshold", c20SkipCount[c20NonTrivial].Load())
+	for code := range c20ClassCount {
+		v := c20ClassCount[code].Load()
+		if v == 0 {
+			continue
+		}
+		b := func(k int) bool { return code>>k&1 == 1 }
+		est := [4]string{"est-skipped", "est=g", "est<g", "est-none"}[code>>4&3]
+		compl := [4]string{"compl-skipped", "compl=false", "compl=true", "?"}[code>>6&3]
+		r.Outcomes[fmt.Sprintf("g=%v fin=%v pcghost=%v %s %s eqv=%v/%v", b(0), b(1), b(8), est, compl, b(2), b(3))] += v
+	}
+}
+
 // c20Check compares every observer with the reference.  The returned string starts with the signature.
 func c20Check(s *c20State, r *verifmc.Report) string {
 	c := s.cfg
 	e := c.reference(s.votes)
-	for _, k := range e.skip {
-		r.Outcome(k)
+	for _, k := range e.skipIdx {
+		c20SkipCount[k].Add(1)
 	}
 	st := s.r.State()
 	pcg := s.r.PrecommitGHOST()
@@ -510,18 +577,44 @@ func c20Check(s *c20State, r *verifmc.Report) string {
 		}
 	}
 	// anti-vacuity classes
-	cls := fmt.Sprintf("g=%v fin=%v est%s compl=%d eqv=%v/%v", e.ghost[0] >= 0, e.finalized >= 0,
-		map[bool]string{true: "=g", false: "<g"}[e.estimate == e.ghost[0]], e.completable, e.eqv[0] > 0, e.eqv[1] > 0)
-	if e.estimate == -2 {
-		cls = fmt.Sprintf("g=%v fin=%v est-skipped eqv=%v/%v", e.ghost[0] >= 0, e.finalized >= 0, e.eqv[0] > 0, e.eqv[1] > 0)
+	code := 0
+	set := func(k int, v bool) {
+		if v {
+			code |= 1 << k
+		}
 	}
-	r.Outcome(cls)
+	set(0, e.ghost[0] >= 0)
+	set(1, e.finalized >= 0)
+	set(2, e.eqv[0] > 0)
+	set(3, e.eqv[1] > 0)
+	set(8, e.ghost[1] >= 0)
+	switch {
+	case e.estimate == -2:
+	case e.estimate == -1:
+		code |= 3 << 4
+	case e.estimate == e.ghost[0]:
+		code |= 1 << 4
+	default:
+		code |= 2 << 4
+	}
+	if e.completable >= 0 {
+		code |= (e.completable + 1) << 6
+	}
+	c20ClassCount[code].Add(1)
 	if e.ghost[0] >= 0 {
 		if _, isNode := s.r.graph.entries.Get(c.hash[e.ghost[0]]); !isNode {
-			r.Outcome("shortcut:prevote-ghost-is-not-a-vote-node")
+			c20SkipCount[c20ShGhostNotNode].Add(1)
 		}
-		if e.completable >= 0 && e.seen[1] >= c.t {
-			r.Distinct(c.name + "|" + s.votesString())
+		if e.seen[1] >= c.t {
+			c20SkipCount[c20NonTrivial].Add(1)
+		}
+	}
+	if le := len(s.r.context.equivocations.bits); le > 0 {
+		lb, _ := s.r.graph.entries.Get(c.hash[0])
+		if ln := len(lb.cumulativeVote.bits.bits); le > ln {
+			c20SkipCount[c20ShEqvLonger].Add(1)
+		} else if ln > le {
+			c20SkipCount[c20ShNodeLonger].Add(1)
 		}
 	}
 	return ""
@@ -529,43 +622,135 @@ func c20Check(s *c20State, r *verifmc.Report) string {
 
 // ---------------------------------------------------------------- canonical dump of the private state
 
-func c20HN(b *bytes.Buffer, hn *HashNumber[string, uint32]) {
+func c20HN(b []byte, hn *HashNumber[string, uint32]) []byte {
 	if hn == nil {
-		b.WriteString("nil;")
-		return
+		return append(b, "nil;"...)
 	}
-	fmt.Fprintf(b, "%s#%d;", hn.Hash, hn.Number)
+	b = append(b, hn.Hash...)
+	b = append(b, '#')
+	b = strconv.AppendUint(b, uint64(hn.Number), 10)
+	return append(b, ';')
 }
 
+func c20Words(b []byte, w []uint64) []byte {
+	b = append(b, '[')
+	for _, x := range w {
+		b = strconv.AppendUint(b, x, 16)
+		b = append(b, ',')
+	}
+	return append(b, ']')
+}
+
+func c20Strs(b []byte, ss []string) []byte {
+	b = append(b, '[')
+	for _, x := range ss {
+		b = append(b, x...)
+		b = append(b, ',')
+	}
+	return append(b, ']')
+}
+
+func c20VM(b []byte, v any) []byte {
+	switch x := v.(type) {
+	case single[Prevote[string, uint32], string]:
+		b = append(b, x.Vote.TargetHash...)
+		b = append(b, '/')
+		b = append(b, x.Signature...)
+	case equivocated[Prevote[string, uint32], string]:
+		for _, y := range x {
+			b = append(b, y.Vote.TargetHash...)
+			b = append(b, '/')
+			b = append(b, y.Signature...)
+			b = append(b, '+')
+		}
+	case single[Precommit[string, uint32], string]:
+		b = append(b, x.Vote.TargetHash...)
+		b = append(b, '/')
+		b = append(b, x.Signature...)
+	case equivocated[Precommit[string, uint32], string]:
+		for _, y := range x {
+			b = append(b, y.Vote.TargetHash...)
+			b = append(b, '/')
+			b = append(b, y.Signature...)
+			b = append(b, '+')
+		}
+	default:
+		panic("c20: unknown multiplicity value")
+	}
+	return append(b, ';')
+}
+
+// c20Canon dumps every private field the explored methods read.  historicalVotes (the
+// import-order log) is deliberately not part of the dump: no method explored here reads it (it is
+// only returned by HistoricalVotes()).
 func c20Canon(s *c20State) []byte {
-	var b bytes.Buffer
+	b := make([]byte, 0, 512)
 	r := s.r
-	fmt.Fprintf(&b, "eq%v|", r.context.equivocations.bits)
-	b.WriteString("graph:")
+	b = append(b, "eq"...)
+	b = c20Words(b, r.context.equivocations.bits)
+	b = append(b, "|graph:"...)
 	r.graph.entries.Scan(func(h string, e voteGraphEntry[string, uint32, *voteNode[string], vote[string]]) bool {
-		fmt.Fprintf(&b, "%s#%d a%v d%v c%v;", h, e.number, e.ancestors, e.descendants, e.cumulativeVote.bits.bits)
+		b = append(b, h...)
+		b = append(b, '#')
+		b = strconv.AppendUint(b, uint64(e.number), 10)
+		b = append(b, 'a')
+		b = c20Strs(b, e.ancestors)
+		b = append(b, 'd')
+		b = c20Strs(b, e.descendants)
+		b = append(b, 'c')
+		b = c20Words(b, e.cumulativeVote.bits.bits)
+		b = append(b, ';')
 		return true
 	})
-	fmt.Fprintf(&b, "heads%v base%s#%d|", r.graph.heads.Keys(), r.graph.base, r.graph.baseNumber)
-	b.WriteString("pv:")
+	b = append(b, "heads"...)
+	b = c20Strs(b, r.graph.heads.Keys())
+	b = append(b, "base"...)
+	b = append(b, r.graph.base...)
+	b = strconv.AppendUint(b, uint64(r.graph.baseNumber), 10)
+	b = append(b, "|pv:"...)
 	r.prevotes.votes.Scan(func(id string, vm voteMultiplicity[Prevote[string, uint32], string]) bool {
-		fmt.Fprintf(&b, "%s=%v;", id, vm.value)
+		b = append(b, id...)
+		b = append(b, '=')
+		b = c20VM(b, vm.value)
 		return true
 	})
-	fmt.Fprintf(&b, "w%d|pc:", r.prevotes.currentWeight)
+	b = append(b, 'w')
+	b = strconv.AppendUint(b, uint64(r.prevotes.currentWeight), 10)
+	b = append(b, "|pc:"...)
 	r.precommits.votes.Scan(func(id string, vm voteMultiplicity[Precommit[string, uint32], string]) bool {
-		fmt.Fprintf(&b, "%s=%v;", id, vm.value)
+		b = append(b, id...)
+		b = append(b, '=')
+		b = c20VM(b, vm.value)
 		return true
 	})
-	fmt.Fprintf(&b, "w%d|", r.precommits.currentWeight)
-	c20HN(&b, r.prevoteGhost)
-	c20HN(&b, r.precommitGhost)
-	c20HN(&b, r.finalized)
-	c20HN(&b, r.estimate)
-	fmt.Fprintf(&b, "%v|model%v%v", r.completable, s.votes, s.acted)
-	// historicalVotes (the import-order log) is deliberately not part of the dump: it is read by
-	// no method explored here (only returned by HistoricalVotes()).
-	return b.Bytes()
+	b = append(b, 'w')
+	b = strconv.AppendUint(b, uint64(r.precommits.currentWeight), 10)
+	b = append(b, '|')
+	b = c20HN(b, r.prevoteGhost)
+	b = c20HN(b, r.precommitGhost)
+	b = c20HN(b, r.finalized)
+	b = c20HN(b, r.estimate)
+	if r.completable {
+		b = append(b, 'C')
+	}
+	b = append(b, "|model"...)
+	for p := 0; p < 2; p++ {
+		for _, vv := range s.votes[p] {
+			for _, x := range vv {
+				b = append(b, byte('0'+x))
+			}
+			b = append(b, ',')
+		}
+		b = append(b, '/')
+	}
+	for _, a := range s.acted {
+		if a {
+			b = append(b, '1')
+		} else {
+			b = append(b, '0')
+		}
+	}
+	return b
 }
 
 // ---------------------------------------------------------------- configurations
@@ -617,19 +802,17 @@ type c20VoterCfg struct {
 	active  []int
 }
 
+type c20Plan struct {
+	vc      c20VoterCfg
+	depth   int
+	symm    bool
+	ghostOp bool
+	beyondF bool
+}
+
 func c20Configs() []*c20Cfg {
 	thorough := verifmc.Thorough()
 	var out []*c20Cfg
-	add := func(parent []int, perm []int, lab string, vc c20VoterCfg, depth int, symm, ghostOp bool) {
-		c := &c20Cfg{
-			name:    fmt.Sprintf("tree%v/%s/%s", parent, lab, vc.name),
-			parent:  append([]int{}, parent...),
-			hash:    c20Hashes(perm),
-			ids:     c20Ids(len(vc.weights)),
-			weights: vc.weights, active: vc.active, symm: symm, depth: depth, ghostOp: ghostOp, baseNum: 1,
-		}
-		out = append(out, c.finish())
-	}
 	v4 := c20VoterCfg{"4x1", []uint64{1, 1, 1, 1}, c20Seq(4)}
 	v211 := c20VoterCfg{"2+1+1", []uint64{2, 1, 1}, c20Seq(3)}
 	v3 := c20VoterCfg{"3x1", []uint64{1, 1, 1}, c20Seq(3)}
@@ -644,50 +827,60 @@ func c20Configs() []*c20Cfg {
 	for _, a := range wide.active {
 		wide.weights[a] = 100
 	}
-
+	q := func(a, b int) int { return verifmc.Pick(a, b) }
+	plans := map[int][]c20Plan{
+		1: {{v4, 8, true, false, true}, {v211, 7, false, true, true}, {v3, 6, false, false, true}, {wide, 7, true, false, true}},
+		2: {{v4, q(8, 9), true, false, true}, {v211, q(7, 8), false, true, true}, {v3, 6, false, false, true}, {wide, q(7, 8), true, false, true}},
+		3: {{v4, 8, true, false, false}, {v4, q(6, 7), true, false, true}, {v211, q(6, 7), false, true, false}, {v3, 6, false, false, false}, {wide, q(7, 8), true, false, false}},
+		4: {{v4, q(7, 8), true, false, false}, {v211, 6, false, false, false}},
+		5: {{v4, q(6, 7), true, false, false}, {v211, q(5, 6), false, false, false}},
+	}
+	if thorough {
+		plans[3] = append(plans[3], c20Plan{v2111, 8, true, false, false}, c20Plan{v4, 7, false, false, false})
+		plans[4] = append(plans[4], c20Plan{wide, 7, true, false, false}, c20Plan{v2111, 7, true, false, false}, c20Plan{v211, 6, false, true, true})
+	}
 	for n := 1; n <= 5; n++ {
 		seenShape := map[string]bool{}
 		verifmc.ParentVectors(n, func(parent []int) {
-			ident := c20Seq(n)
-			rev := make([]int, n)
-			for i := range rev {
-				rev[i] = n - 1 - i
-			}
 			firstOfShape := !seenShape[c20Shape(parent)]
 			seenShape[c20Shape(parent)] = true
+			// quick, n=5: one labelled representative per unlabelled shape (9 shapes)
+			if n == 5 && !thorough && !firstOfShape {
+				return
+			}
 			type lab struct {
 				perm []int
 				name string
 			}
-			labs := []lab{{ident, "id"}}
+			labs := []lab{{c20Seq(n), "id"}}
 			if n >= 2 {
+				rev := make([]int, n)
+				for i := range rev {
+					rev[i] = n - 1 - i
+				}
 				labs = append(labs, lab{rev, "rev"})
 			}
+			if n == 3 || (n == 4 && thorough) {
+				// every assignment of hash order to the nodes
+				labs = labs[:0]
+				verifmc.Permutations(n, func(p []int) {
+					labs = append(labs, lab{append([]int{}, p...), fmt.Sprintf("perm%v", p)})
+				})
+			}
 			for _, l := range labs {
-				switch {
-				case n <= 3:
-					add(parent, l.perm, l.name, v4, verifmc.Pick(8, 9), true, false)
-					add(parent, l.perm, l.name, v211, verifmc.Pick(7, 8), false, true)
-					add(parent, l.perm, l.name, v3, 6, false, false)
-					add(parent, l.perm, l.name, wide, verifmc.Pick(7, 8), true, false)
-					if thorough {
-						add(parent, l.perm, l.name, v2111, 8, true, false)
-						add(parent, l.perm, l.name, v4, 7, false, false)
+				for _, pl := range plans[n] {
+					c := &c20Cfg{
+						name:    fmt.Sprintf("tree%v/%s/%s/d%d", parent, l.name, pl.vc.name, pl.depth),
+						parent:  append([]int{}, parent...),
+						hash:    c20Hashes(l.perm),
+						ids:     c20Ids(len(pl.vc.weights)),
+						weights: pl.vc.weights, active: pl.vc.active, symm: pl.symm, depth: pl.depth,
+						ghostOp: pl.ghostOp, beyondF: pl.beyondF, baseNum: 1,
 					}
-				case n == 4:
-					add(parent, l.perm, l.name, v4, verifmc.Pick(6, 8), true, false)
-					add(parent, l.perm, l.name, v211, verifmc.Pick(6, 7), false, false)
-					if thorough {
-						add(parent, l.perm, l.name, wide, 7, true, false)
-						add(parent, l.perm, l.name, v2111, 7, true, false)
+					if pl.beyondF {
+						c.name += "/beyondF"
 					}
-				case n == 5:
-					// quick: one labelled representative per unlabelled shape (9 shapes), both hash orders
-					if !thorough && !firstOfShape {
-						continue
-					}
-					add(parent, l.perm, l.name, v211, verifmc.Pick(5, 6), false, false)
-					add(parent, l.perm, l.name, v4, verifmc.Pick(6, 7), true, false)
+					out = append(out, c.finish())
 				}
 			}
 		})
@@ -702,18 +895,23 @@ func TestVerif_C20(t *testing.T) {
 	defer r.Write()
 	r.Rule = "per configuration (block tree as parent vector x hash labelling x voter-weight vector): BFS over all histories of importPrevote/importPrecommit calls (any active voter, any block of the tree, incl. duplicates, equivocations, third votes) up to the configuration's depth on a fresh real Round, states merged on a dump of the Round's private state (vote graph entries with ancestor/descendant lists and bitfields, trackers, equivocation bitfield, memoised ghost/finalized/estimate/completable); in every state State(), PrecommitGHOST(), Completable() and participation weights are compared with the reference over explicit weights; a case is non-trivial when both phases have reached the threshold"
 	r.Assumption("votes are for blocks of the tree with their correct numbers, one signature per (voter, vote); round base = tree root")
-	r.Assumption("configurations marked symm explore histories up to renaming of equal-weight voters (new voters appear in id order)")
+	r.Assumption("configurations marked symm explore histories up to renaming of equal-weight voters (new voters appear in id order); configurations not marked beyondF do not explore votes that raise a phase's equivocator weight above f")
 	cfgs := c20Configs()
+	only := os.Getenv("C20_ONLY")
 	r.Extra["configurations"] = len(cfgs)
 	perCfg := map[string]any{}
+	defer c20FlushOutcomes(r)
 	for _, c := range cfgs {
+		if only != "" && !strings.Contains(c.name, only) {
+			continue
+		}
 		if r.Expired() {
 			r.Capped("deadline before configuration " + c.name)
 			break
 		}
 		c := c
 		all := c20AllOps(c)
-		before := r.Counters["states"]
+		before, beforeT, nv := r.Counters["states"], r.Counters["transitions"], len(r.Violations)
 		h := &verifmc.Hist[*c20State]{
 			Fresh: func() *c20State { return c20Fresh(c) },
 			Ops:   func(s *c20State) []verifmc.Op { return c20Enabled(s, all) },
@@ -735,7 +933,14 @@ func TestVerif_C20(t *testing.T) {
 			Depth: c.depth,
 		}
 		h.Explore(r)
-		perCfg[c.name] = map[string]any{"depth": c.depth, "symm": c.symm, "states": r.Counters["states"] - before}
+		// a history alone does not identify the case: store the configuration with it
+		for i := nv; i < len(r.Violations); i++ {
+			r.Violations[i].Replay = map[string]any{"configuration": c.describe(), "history": r.Violations[i].Replay}
+		}
+		perCfg[c.name] = []int64{r.Counters["states"] - before, r.Counters["transitions"] - beforeT}
+		if only != "" {
+			t.Logf("%s states=%d transitions=%d", c.name, r.Counters["states"]-before, r.Counters["transitions"]-beforeT)
+		}
 	}
-	r.Extra["per_configuration_states"] = perCfg
+	r.Extra["per_configuration_states_transitions"] = perCfg
 }
